@@ -50,12 +50,14 @@ type Session struct {
 	unixTerms map[string]bool
 	suppressObl bool
 	scanReal map[string]bool
+	lastTxn T
+	getKeys map[string]T
 	scanBlocks map[*ssa.BasicBlock]bool
 }
 
 func newSession(eng *Engine, name string) *Session {
 	s := &Session{eng: eng, Name: name, declared: map[string]bool{}, strLits: map[string]int{"": 0}, strList: []string{""}, typeTags: map[string]int{},
-		notes: map[string]bool{}, inlined: map[string]bool{}, used: map[string]bool{}, oblNames: map[string]int{}, shiftKs: map[int]bool{}, ifaceOrigin: map[string]ifaceOrg{}, unixTerms: map[string]bool{}}
+		notes: map[string]bool{}, inlined: map[string]bool{}, used: map[string]bool{}, oblNames: map[string]int{}, shiftKs: map[int]bool{}, ifaceOrigin: map[string]ifaceOrg{}, unixTerms: map[string]bool{}, getKeys: map[string]T{}}
 	return s
 }
 
